@@ -191,12 +191,25 @@ def run(tier, wd):
                 walk(p + [s])
         walk([0])
         for target in paths:
-            for long_, via in ((False, "method"), (True, "method"), (True, "flag")):
+            # the second of two help requests on the same command object: only where the listed sub commands declare nothing (printing a
+            # help initialises every listed sub command again, and a second declaration of an option panics)
+            twice = [(False, "method2")] if nodes[target[-1]]["subs"] and all(not nodes[s_]["opts"] and not nodes[s_]["args"] for s_ in nodes[target[-1]]["subs"]) else []
+            for long_, via in [(False, "method"), (True, "method"), (True, "flag")] + twice:
                 if via == "flag" and rnd.random() < 0.5:
                     continue
                 setenv = {"VERIF_H1": rnd.choice(["9", "true", "zz"])} if rnd.random() < 0.3 else {}
                 cases.append({"nodes": nodes, "target": target, "long": long_, "via": via, "setenv": setenv})
                 decls.append(abstract_decl(nodes, target))
+    # trees whose sub commands declare nothing, hidden ones anywhere among them: both help forms, twice
+    for _ in range(40 if q else 1500):
+        nodes = rand_tree(rnd, 1)
+        for s_ in nodes[0]["subs"]:
+            nodes[s_]["opts"], nodes[s_]["args"], nodes[s_]["spec"] = [], [], ""
+        if not nodes[0]["subs"]:
+            continue
+        for long_ in (False, True):
+            cases.append({"nodes": nodes, "target": [0], "long": long_, "via": "method2", "setenv": {}})
+            decls.append(abstract_decl(nodes, [0]))
     results = core.run_harness(binpath, "help", cases, wd)
     records, shortnames = [], set()
     unparsed = []
